@@ -464,7 +464,7 @@ const FindingRollbackBeforeFirstPod = "c10-cloneset-rollback-not-recognised-when
 // rollbackBeforeFirstPod: CloneSet, release in progress, and the pods will not stay on mixed
 // revisions after the revert.
 func (r *Run) rollbackBeforeFirstPod() bool {
-	if !KnownOpen[FindingRollbackBeforeFirstPod] || os.Getenv("VERIF_REPLAY_STRICT") != "" || !propActive("C10") || r.S.Workload != "cloneset" {
+	if !KnownOpen[FindingRollbackBeforeFirstPod] || os.Getenv("VERIF_REPLAY_STRICT") != "" || !(propActive("C10") || propActive("C04")) || r.S.Workload != "cloneset" {
 		return false
 	}
 	ro := r.W.Rollout(r.S.Namespace, r.S.Name)
